@@ -16,6 +16,9 @@ copied as they are (spec functions, lemmas, trusted prelude).  Directives:
       //@subst-opt R<k> "<from>" => "<to>"   the same, but zero occurrences are fine (used to route allocation APIs that the
                                code does not call today, e.g. `Vec::with_capacity(`, to budgeted prelude shims if they appear)
       //@r3 <loop ordinal>     rewrite `for (a,b) in X.into_iter().enumerate()` / `for a in X` to an index loop
+      //@orpat-guard R<k>      rewrite every match arm `P1 | P2 | .. if G =>` whose Pi are constant paths (Verus rejects an
+                               or-pattern combined with a guard) to `__m if (__m == P1 || __m == P2 ..) && (G) =>`; zero
+                               occurrences are fine.  Assumes the Pi are integer constants (matching == equality).
       //@spec                  following lines: requires/ensures/decreases clauses (before the body brace)
       //@loop <n>              following lines: invariant/decreases clauses of the n-th loop (textual order, 1-based)
       //@before "<anchor>" [#k] / //@after "<anchor>" [#k]   following lines: ghost text spliced before/after the
@@ -53,6 +56,7 @@ class Block:
         self.substs = []      # (rid, from, to)
         self.subst_opt = set()   # (rid, from) of the //@subst-opt entries
         self.r3 = []          # loop ordinals
+        self.orpat = None     # rewrite id of //@orpat-guard
         self.spec = None
         self.loops = {}       # n -> text
         self.anchored = []    # (where, anchor, k, text)
@@ -159,6 +163,25 @@ def build_item(repo, blk, cache):
         for m7 in re.finditer(r"\|\s*_\s*\|", text):
             add(T0 + m7.start(), m7.end() - m7.start(), "|_v|", "R7"); cnt7 += 1
         if cnt7: rewrites.append({"id": "R7", "from": "|_|", "to": "|_v|", "occurrences": cnt7})
+    if blk.orpat and item.kind == "fn":
+        cnto = 0
+        for mo in re.finditer(r"(?m)^([ \t]*)([A-Za-z_][A-Za-z0-9_:]*(?:\s*\|\s*[A-Za-z_][A-Za-z0-9_:]*)+)\s+if\s+", text):
+            # the guard ends at the first `=>` outside brackets
+            depth, q, end = 0, mo.end(), -1
+            while q < len(text) - 1:
+                c = text[q]
+                if c in "([{": depth += 1
+                elif c in ")]}": depth -= 1
+                elif depth == 0 and text[q:q+2] == "=>" and text[q-1] not in "=<>": end = q; break
+                q += 1
+            if end < 0: raise ToolError("UNSUPPORTED //@orpat-guard: no `=>` after the guard in %s" % blk.path)
+            g_end = end
+            while g_end > mo.end() and text[g_end-1] in " \t\r\n": g_end -= 1
+            pats = [x.strip() for x in mo.group(2).split("|")]
+            add(T0 + mo.start(), mo.end() - mo.start(), mo.group(1) + "__m if (" + " || ".join("__m == %s" % x for x in pats) + ") && (", blk.orpat)
+            add(T0 + g_end, 0, ")", blk.orpat)
+            cnto += 1
+        if cnto: rewrites.append({"id": blk.orpat, "from": "P1 | P2 .. if G =>", "to": "__m if (__m == P1 || ..) && (G) =>", "occurrences": cnto})
     if blk.ret:
         if not parts or not parts["ret"]: raise ToolError("//@ret on item without return type: %s" % blk.path)
         a, b = parts["ret"]
@@ -300,6 +323,7 @@ def generate(repo, unit_tmpl):
                         blk.substs.append((rid, frm, to))
                         if d == "subst-opt": blk.subst_opt.add((rid, frm))
                     elif d == "r3": blk.r3.append(int(rest))
+                    elif d == "orpat-guard": blk.orpat = rest or "R11"
                     elif d == "spec": cur = ("spec",)
                     elif d == "loop": cur = ("loop", int(rest))
                     elif d in ("before", "after"):
